@@ -99,7 +99,7 @@ CHECKS = {
         "params": {"mode": "caps"},
     },
     "C06": {
-        "claim": "seeded search over schedules and message timings of one real rpc.Conn against a spec-following model peer (Bootstrap, Calls to imports and to promised answers that have or have not returned, Finish before or after Return, Release) and 0-2 local caller tasks; a protocol monitor over the two-directional message history checks exactly one Return per question with the content the application produced, exactly-once resolution of local calls with the peer's result, no question id reuse before its Finish, and per-target delivery order; the model peer also plays the embargo loop-back in both directions (answers with capabilities the Conn itself hosts, reflects the Conn's pipelined calls to them in order, relays their Returns, echoes and itself sends Disembargo) with an order oracle over local calls pipelined on one answer and an echo-after-reflection oracle; one run in four joins TWO real Conns over a pair of simulated transports with capabilities and callers on both sides (three-party paths, nested calls by implementations) and application-level oracles: exactly-once delivery to the designated capability, result content, per-handle / per-answer order, no connection loss in a fault-free session",
+        "claim": "seeded search over schedules and message timings of one real rpc.Conn against a spec-following model peer (Bootstrap, Calls to imports and to promised answers that have or have not returned, Finish before or after Return, Release) and 0-2 local caller tasks; a protocol monitor over the two-directional message history checks exactly one Return per question with the content the application produced, exactly-once resolution of local calls with the peer's result, no question id reuse before its Finish, and per-target delivery order; the model peer also plays the embargo loop-back in both directions (answers with capabilities the Conn itself hosts, reflects the Conn's pipelined calls to them in order, relays their Returns, echoes and itself sends Disembargo) with an order oracle over local calls pipelined on one answer and an echo-after-reflection oracle; one run in four joins TWO real Conns over a pair of simulated transports with capabilities and callers on both sides (three-party paths, nested calls by implementations) and application-level oracles: exactly-once delivery to the designated capability, result content, per-handle / per-answer order, no connection loss in a fault-free session; local calls are pipelined through result pointer 0 or 1 and the peer may name the Conn's own export in the second pointer next to a capability of its own in the first (one embargo per called path, issue order checked per answer and pointer)",
         "engine": "rpcsim", "level": "exploration",
         "budget": {"quick": 30, "thorough": 900},
         "min_runs": {"quick": 12000},
